@@ -75,7 +75,7 @@ func c20Gen(t *rapid.T) c20Case {
 	}
 	amount := rapid.OneOf(rapid.Int64Range(0, 3000), rapid.SampledFrom([]int64{0, 1, 99, 100, 101, 1000, 1199, 1200, 4096, 5000, 20000}))
 	step := rapid.Custom(func(t *rapid.T) c20Step {
-		k := rapid.SampledFrom([]string{"write", "write", "write", "write", "maxdata", "maxdata+", "maxdata+", "maxstreamdata", "maxstreamdata+", "maxstreamdata+", "maxstreamdata+", "ack", "acklatest", "advance", "advance", "peerdata", "peerdata", "read", "closewrite"}).Draw(t, "kind")
+		k := rapid.SampledFrom([]string{"write", "write", "write", "write", "maxdata", "maxdata+", "maxdata+", "maxstreamdata", "maxstreamdata+", "maxstreamdata+", "maxstreamdata+", "ack", "acklatest", "advance", "advance", "peerdata", "peerdata", "read", "closewrite", "ccrace"}).Draw(t, "kind")
 		if rapid.IntRange(0, 119).Draw(t, "over") == 0 {
 			k = "peerover"
 		}
@@ -285,6 +285,74 @@ func c20Run(t *testing.T, c c20Case, r *vp.Rec) error {
 				peerMaxSD[s.id] = st.N
 			}
 			tc.writeFrames(packetType1RTT, debugFrameMaxStreamData{id: s.id, max: st.N})
+		case "ccrace":
+			// Make the conn congestion-limited (a large write that is never
+			// acknowledged), then let the application free connection-level receive
+			// credit: the MAX_DATA update is scheduled but may be unable to leave. A
+			// peer that then exceeds the limit it has actually been given must still
+			// get FLOW_CONTROL_ERROR. (If the update does leave, the monitor sees it
+			// and the overrun below is simply relative to the new limit.)
+			s := sendStream(0)
+			if s == nil {
+				continue
+			}
+			peerMaxData = max(peerMaxData, 1<<30)
+			tc.writeFrames(packetType1RTT, debugFrameMaxData{max: 1 << 30})
+			peerMaxSD[s.id] = max(limitFor(s.id), 1<<30)
+			tc.writeFrames(packetType1RTT, debugFrameMaxStreamData{id: s.id, max: 1 << 30})
+			for k := 0; k < 4; k++ {
+				b := make([]byte, 10000)
+				for i := range b {
+					b[i] = byte(written[s.id] + int64(i))
+				}
+				n, _ := s.Write(b)
+				written[s.id] += int64(n)
+				s.Flush()
+				if err := drain(); err != nil {
+					return err
+				}
+			}
+			r.Class("ccrace")
+			id := remoteID(0)
+			for k := 0; k < 3 && !gotClose; k++ {
+				off := peerSent[id]
+				n := min(int64(1100), advFor(id)-off, advMaxData-peerSentSum)
+				if n <= 0 {
+					break
+				}
+				tc.writeFrames(packetType1RTT, debugFrameStream{id: id, off: off, data: make([]byte, n)})
+				peerSentSum += n
+				peerSent[id] = off + n
+				if remote[0] == nil {
+					if rs, err := tc.conn.AcceptStream(ctx); err == nil {
+						rs.SetReadContext(ctx)
+						rs.SetWriteContext(ctx)
+						for j := 0; j < c20Remote; j++ {
+							if remoteID(j) == rs.id {
+								remote[j] = rs
+							}
+						}
+					}
+				}
+				if remote[0] != nil {
+					remote[0].Read(make([]byte, 4096))
+				}
+				if err := drain(); err != nil {
+					return err
+				}
+			}
+			if !gotClose {
+				// one byte beyond the connection limit the peer has actually been given
+				off := peerSent[id] + (advMaxData - peerSentSum)
+				if off+1 > advFor(id) {
+					// the stream limit would be hit first: that is an overrun too
+					off = advFor(id)
+				}
+				expectClose = true
+				r.Class("peer-overrun")
+				r.Class("peer-overrun-while-congestion-limited")
+				tc.writeFrames(packetType1RTT, debugFrameStream{id: id, off: off, data: make([]byte, 1)})
+			}
 		case "ack":
 			tc.writeAckForAll()
 		case "acklatest":
